@@ -7,7 +7,7 @@
                passage headers (params, tags, name validation, location list), `#` comment lines,
                @render, @input, @hook / @unhook, @join marker and section counting, `->` jumps,
                `~` statements with multi-line continuation (Python's parser is the oracle
-               py_stmt_ok), choices (validate_choice_syntax, parse_choice_line, sections, `-> @join`),
+               py_stmt_ok, and py_stmt_errline for the line it blames), choices (validate_choice_syntax, parse_choice_line, sections, `-> @join`),
                content lines with glue `<>`, blank lines; the final "Unrecognized directive" branch
                is dead code in core.py (every non-blank line of a passage has been consumed by the
                content-line branch before) and has no counterpart here.
@@ -21,8 +21,8 @@
      pres (block_content * block_execute * lines_consumed).  The loop only needs
      `1 <= lines_consumed` of the first three (extractors_ok).
    NOT MODELLED: the text of diagnostics (a diag carries a site tag and the index handed to
-     format_error; for the `~` statement the real index adds Python's e.lineno - 1, which the oracle does
-     not expose: the model says i); BlockStack (core.py creates one and only calls check_empty on
+     format_error; for the `~` statement that is `i + (e.lineno - 1 if e.lineno else 0)`, the oracle
+     py_stmt_errline, not clamped to the statement: core.py does not clamp it either); BlockStack (core.py creates one and only calls check_empty on
      it, nothing is ever pushed, so it is a no-op); the stderr warning of _determine_initial_passage;
      "version"; the bookkeeping keys `_join_count` / `current_section` that stay in the passage
      dict, `block_execute` of a @join choice and token-level "tags" (not in Story/Compiled.v).
@@ -440,7 +440,9 @@ Definition body_step (lines : list string) (i : nat) (line : string) (st : pstat
     let (complete_code, consumed) := extract_multiline_expression lines i code in
     if py_stmt_ok pp complete_code
     then next (with_execute cp (TPyStmt complete_code)) (i + consumed)
-    else dsyn "stmt:python-syntax" i else
+    else
+      (* error_line = i + (e.lineno - 1 if e.lineno else 0) *)
+      dsyn "stmt:python-syntax" (i + py_stmt_errline pp complete_code) else
   (* choice *)
   if startswith line "+ " || startswith line "* " then
     let sec := match pp_section cp with Some n => n | None => 0 end in
